@@ -98,7 +98,8 @@ func c15Cases(tier string) int {
 }
 
 // c15CapCase: one BEACON and one WRKChain hold more than the 20 000 records the export keeps.
-func c15CapCase(c *fw.Ctx) {
+func c15CapCase(c0 *fw.Ctx, rules func(rule string) bool) {
+	c := capCtx{c0, rules}
 	o := lab.DefaultOptions()
 	o.NAccts = 3
 	o.Wrk = wrkchaintypes.NewParams(10, 1, 1, lab.Denom, 25000, 30000)
@@ -202,9 +203,22 @@ func c15CapCase(c *fw.Ctx) {
 	c.Nontrivial()
 }
 
+// capCtx filters the violations of the export-cap case by rule (it is shared with C08, which owns
+// only the "counters match what is queryable" rules).
+type capCtx struct {
+	*fw.Ctx
+	rules func(rule string) bool
+}
+
+func (c capCtx) Violate(rule, sig, format string, a ...interface{}) {
+	if c.rules == nil || c.rules(rule) {
+		c.Ctx.Violate(rule, sig, format, a...)
+	}
+}
+
 func runC15(c *fw.Ctx) {
 	if !c.Race && c.Case == c15Cases(c.Tier) {
-		c15CapCase(c)
+		c15CapCase(c, nil)
 		return
 	}
 	r := c.Rng
